@@ -73,6 +73,18 @@ def make_message(kind_, key, src):
             return m, True
         except Exception:
             return m, False
+    if kind_.startswith("header_"):
+        # a header attribute that is missing or of the wrong type (e.g. a message parsed from JSON with "source": null)
+        attr, val = {"header_source_none": ("source", None), "header_priority_none": ("priority", None), "header_priority_str": ("priority", "3")}[kind_]
+        setattr(m, attr, val)
+        m.tag_source = src            # (the oracle tells messages apart by source address)
+        from nmea2000.encoder import NMEA2000Encoder
+        try:
+            e = NMEA2000Encoder()
+            e.encode_ebyte(m), e.encode_usb(m), e.encode_yacht_devices(m)
+            return m, True
+        except Exception:
+            return m, False
     if kind_ == "unknown_pgn":
         m.PGN = 99999
         m.id = "noSuchPgn"
@@ -86,7 +98,8 @@ def cases(draw, client):
     msgs = []
     for i in range(n):
         k = draw(st.sampled_from(["ok", "ok", "ok", "ok", "ok", "missing_field", "out_of_range", "unknown_pgn", "bad_lookup_name", "no_encoder_field_type",
-                                   "odd_destination_neg", "odd_destination_256", "odd_destination_big", "odd_destination_huge"]))
+                                   "odd_destination_neg", "odd_destination_256", "odd_destination_big", "odd_destination_huge",
+                                   "header_source_none", "header_priority_none", "header_priority_str"]))
         key = draw(st.sampled_from(FAST + FAST + SINGLE + (["59904/isoRequest"] * 4 if k.startswith("odd") else [])))
         msgs.append((k, key, i + 1))
     pauses = draw(st.lists(st.tuples(st.integers(1, 30), st.integers(1, 12)), min_size=0, max_size=6))
